@@ -33,8 +33,21 @@ theorem trim_cfg_documented : Gen.C09.trimCfg = trimCfgDoc := by decide
 /-- inside the mask volume when `0 <= idx < shape`, removed when the voxel `== 0` -/
 theorem mask_cfg_documented : Gen.C09.maskCfg = maskCfgDoc := by decide
 
-/-- the subtomo ids are carried through the bounds filter (repair a0240b0 is in place) -/
+/-- anchor (implied by `mask_skeleton_documented`, kept as a named fact for the regression of a0240b0): the subtomo ids are
+carried through the same bounds filter as the coordinates -/
 theorem mask_ids_through_filter : Gen.C09.maskIdsThroughFilter = true := by decide
+
+/-- `clean_by_tomo_mask` loads `tomo_list` with an effective `sort_angles = False` (`LOAD_TOMO_LIST` in the skeleton is
+`ioutils.tlt_load(tomo_list, sort_angles=False)`): a list read from a FILE reaches the pairing with the masks in the order of
+its lines. Before that repair the effective value was `tlt_load`'s default `True` (`cleanMask_sorted_file_counterexample`). -/
+theorem mask_tomo_list_as_given : Gen.C09.maskTomoFileSorted = false := by decide
+
+/-- anchor: `tlt_load(input_tlt, sort_angles=True)` — whoever omits the keyword gets sorted values; the translator also checks
+that every sorting call of `tlt_load` sits under `if sort_angles:` (anchor `tlt_load:nothing is sorted unless sort_angles holds`) -/
+theorem tlt_load_sort_default_documented : Gen.C09.tltLoadSortDefault = true := by decide
+
+/-- anchor: `cryomap.read` turns file order (z, y, x) into array index `[x, y, z]` -/
+theorem read_transpose_documented : Gen.C09.readTransposeAxes = [2, 1, 0] := by decide
 
 theorem points_ball_query_per_tomogram : Gen.C09.pointsBallQueryPerTomogram = true := by decide
 
@@ -49,7 +62,9 @@ theorem dim_columns_documented : Gen.C09.dimColumns = ["tomo_id", "x", "y", "z"]
 /-- `cryomap.binarize`: a mask voxel is non-zero iff `value > 0.5` -/
 theorem binarize_documented : Gen.C09.binarizeCfg = binarizeCfgDoc := by decide
 
-/-! ### signature defaults the statement depends on (the harness omits these keywords in a share of its calls) -/
+/-! ### signature defaults the statement depends on (the harness omits these keywords in a share of its calls).
+These `…_documented` equalities — like the skeleton equalities below — are TRANSLATOR ANCHORS: they tie the text of today's
+source to the model; none of them is a clause of the property. -/
 
 /-- `remove_out_of_bounds_particles(dimensions, boundary_type="center", box_size=None)` -/
 theorem oob_defaults_documented :
@@ -68,8 +83,15 @@ theorem binarize_defaults_documented : Gen.C09.binarizeDefaults = [("threshold",
 
 theorem dims_load_defaults_documented : Gen.C09.dimsLoadDefaults = [("tomo_idx", "None")] := by decide
 
-/-! ### body skeletons: everything of the anchored functions that is not one of the operators above. Locals are renamed
-`v1, v2, …` in order of first binding (a renamed local changes nothing here), the docstring is dropped, the extracted
+theorem tlt_load_defaults_documented : Gen.C09.tltLoadDefaults = [("sort_angles", "True")] := by decide
+
+/-- a mask given as a file path goes through `cryomap.read(path)` with these defaults (`binarize` passes nothing else) -/
+theorem read_defaults_documented : Gen.C09.readDefaults = [("transpose", "True"), ("data_type", "None")] := by decide
+
+/-! ### body skeletons (translator anchors, not clauses of the property): everything of the anchored functions that is not one of
+the operators above. Locals are renamed `v1, v2, …` in order of first binding and a local that is never read prints as `_` (a
+renamed local changes nothing here); docstrings and type annotations are dropped; the text of exception messages is `MSG` (the
+exception TYPE stays) and `print`/log calls are `LOG()`; `(X).all(axis=k)` is written `np.all(X, axis=k)`; the extracted
 operators/constants appear as named holes. An added, removed, reordered or edited statement breaks the `rfl`. -/
 
 /-- `remove_out_of_bounds_particles`: dimensions through `ioutils.dimensions_load`, refusals, complete positions, per row the
@@ -78,29 +100,29 @@ FIRST dimension row of the row's own tomogram, `c ∓ boundary` on `x..z`, one c
 theorem oob_skeleton_documented : Gen.C09.oobSkeleton = [
   "def(self, dimensions, boundary_type='center', box_size=None)",
   "v1 = ioutils.dimensions_load(dimensions)",
-  "v2 = len(self.df)",
+  "_ = len(self.df)",
   "if boundary_type == 'whole':",
   "    if box_size:",
-  "        v3 = HALF_BOX(box_size)",
+  "        v2 = HALF_BOX(box_size)",
   "    else:",
-  "        raise UserInputError(\"You need to specify box_size when boundary_type is set to 'whole'.\")",
+  "        raise UserInputError(MSG)",
   "elif boundary_type == 'center':",
-  "    v3 = 0",
+  "    v2 = 0",
   "else:",
-  "    raise UserInputError(f'Unknown type of boundaries: {boundary_type}')",
-  "v4 = self.get_coordinates()",
-  "v5 = pd.DataFrame({'x': v4[:, 0], 'y': v4[:, 1], 'z': v4[:, 2], 'tomo_id': self.df['tomo_id'].values})",
-  "v6 = []",
-  "for v7, v8 in v5.iterrows():",
-  "    v9 = v8['tomo_id']",
-  "    v10 = v1.loc[v1['tomo_id'] == v9, 'x':'z'].reset_index(drop=True)",
-  "    v11 = [v12 - v3 for v12 in v8['x':'z']]",
-  "    v13 = [v12 + v3 for v12 in v8['x':'z']]",
-  "    if LOWER_FACES_OK(v11) and CMP_UPPER(v13[0], v10['x'][0]) and CMP_UPPER(v13[1], v10['y'][0]) and CMP_UPPER(v13[2], v10['z'][0]):",
-  "        v6.append(v7)",
-  "self.df = self.df.iloc[v6].reset_index(drop=True)",
-  "print(f'Removed {v2 - len(self.df)} particles.')",
-  "print(f'Original size {v2}, new_size {len(self.df)}')"] := rfl
+  "    raise UserInputError(MSG)",
+  "v3 = self.get_coordinates()",
+  "v4 = pd.DataFrame({'x': v3[:, 0], 'y': v3[:, 1], 'z': v3[:, 2], 'tomo_id': self.df['tomo_id'].values})",
+  "v5 = []",
+  "for v6, v7 in v4.iterrows():",
+  "    v8 = v7['tomo_id']",
+  "    v9 = v1.loc[v1['tomo_id'] == v8, 'x':'z'].reset_index(drop=True)",
+  "    v10 = [v11 - v2 for v11 in v7['x':'z']]",
+  "    v12 = [v11 + v2 for v11 in v7['x':'z']]",
+  "    if LOWER_FACES_OK(v10) and CMP_UPPER(v12[0], v9['x'][0]) and CMP_UPPER(v12[1], v9['y'][0]) and CMP_UPPER(v12[2], v9['z'][0]):",
+  "        v5.append(v6)",
+  "self.df = self.df.iloc[v5].reset_index(drop=True)",
+  "LOG()",
+  "LOG()"] := rfl
 
 /-- `adapt_to_trimming`: `start - OFFSET` is a NEW array (the caller's array is not touched), `tdim = end - that`, x,y,z shifted for
 every row, then the two negated any-axis filters -/
@@ -108,7 +130,7 @@ theorem trim_skeleton_documented : Gen.C09.trimSkeleton = [
   "def(self, trim_coord_start, trim_coord_end)",
   "v1 = np.asarray(trim_coord_start) - OFFSET",
   "v2 = np.asarray(trim_coord_end) - v1",
-  "self.df.loc[:, ['x', 'y', 'z']] = self.df.loc[:, ['x', 'y', 'z']] - np.tile(v1, (self.df.shape[0], 1))",
+  "self.df[['x', 'y', 'z']] = self.df[['x', 'y', 'z']] - np.tile(v1, (self.df.shape[0], 1))",
   "self.df = self.df.loc[~(CMP_LOW(self.df['x'], LOW_BOUND) | CMP_LOW(self.df['y'], LOW_BOUND) | CMP_LOW(self.df['z'], LOW_BOUND)), :]",
   "self.df = self.df.loc[~(CMP_HIGH(self.df['x'], v2[0]) | CMP_HIGH(self.df['y'], v2[1]) | CMP_HIGH(self.df['z'], v2[2])), :]"] := rfl
 
@@ -116,11 +138,13 @@ theorem trim_skeleton_documented : Gen.C09.trimSkeleton = [
 positions, the bounds mask applied to coordinates AND ids alike, voxel lookup `[x, y, z]`, rows dropped from the copy -/
 theorem mask_skeleton_documented : Gen.C09.maskSkeleton = [
   "def(self, tomo_list, tomo_masks, inplace=True, output_file=None)",
-  "v1 = ioutils.tlt_load(tomo_list)",
+  "if not isinstance(tomo_list, (str, list, np.ndarray)):",
+  "    tomo_list = np.atleast_1d(np.asarray(tomo_list))",
+  "v1 = LOAD_TOMO_LIST(tomo_list)",
   "v2 = True",
   "if isinstance(tomo_masks, list):",
   "    if len(v1) != len(tomo_masks):",
-  "        raise ValueError(f'The list of tomograms has different length than lists of tomogram masks')",
+  "        raise ValueError(MSG)",
   "else:",
   "    v3 = cryomap.binarize(tomo_masks)",
   "    v2 = False",
@@ -137,7 +161,7 @@ theorem mask_skeleton_documented : Gen.C09.maskSkeleton = [
   "    v12 = np.where(CMP_VOXEL(v11, 0))[0]",
   "    v13 = v10[v12]",
   "    DROP_ROWS(v4, v6, v13)",
-  "    print(f'Removed {str(v12.shape[0])} particles from tomogram #{str(v6)}')",
+  "    LOG()",
   "v4.df.reset_index(inplace=True, drop=True)",
   "if output_file is not None:",
   "    v4.write_out(output_file)",
@@ -168,7 +192,7 @@ theorem points_skeleton_documented : Gen.C09.pointsSkeleton = [
   "v12 = Motl(v2)",
   "if output_file:",
   "    v12.write_out(output_file)",
-  "print(f'{self.df.shape[0] - v12.df.shape[0]} particles were removed.')",
+  "LOG()",
   "if inplace:",
   "    self.df = v2",
   "else:",
@@ -199,7 +223,7 @@ theorem dims_load_skeleton_documented : Gen.C09.dimsLoadSkeleton = [
   "    elif os.path.isfile(input_dims):",
   "        v1 = pd.read_csv(input_dims, sep='\\\\s+', header=None, dtype=float)",
   "    else:",
-  "        raise ValueError(f'The file at the path {input_dims} does not exist.')",
+  "        raise ValueError(MSG)",
   "elif isinstance(input_dims, list):",
   "    v1 = pd.DataFrame(np.reshape(np.asarray(input_dims), (1, len(input_dims))))",
   "else:",
@@ -211,7 +235,7 @@ theorem dims_load_skeleton_documented : Gen.C09.dimsLoadSkeleton = [
   "elif v1.shape[1] == 4:",
   "    v1.columns = ['tomo_id', 'x', 'y', 'z']",
   "else:",
-  "    raise ValueError(f'The dimensions should have shape of 1x3 or Nx4, where N is number of tomograms.Instead following shape was extracted from the prvoided files: {v1.shape}.')",
+  "    raise ValueError(MSG)",
   "if tomo_idx is not None:",
   "    v3 = tlt_load(tomo_idx).astype(int)",
   "    if 'tomo_id' not in v1.columns:",
@@ -246,6 +270,26 @@ theorem trimCode_eq (s e : V3 α) (l : Motl α) : trimCode s e l = trim s e l :=
 theorem cleanMaskCode_eq (tr : α → Int) (tomos : List α) (arg : MaskArg) (l : Motl α) :
     cleanMaskCode tr tomos arg l = cleanMask tr tomos arg l := by
   unfold cleanMaskCode cleanMask; rw [mask_cfg_documented]
+
+/-- `tlt_load(·, sort_angles=False)` hands back the caller's values in the caller's order, whatever the form of the argument -/
+theorem tltLoad_false (ta : TomoArg α) : tltLoad false ta = ta.values := by cases ta <;> rfl
+
+/-- a list / tuple / ndarray / single number is never sorted, whatever `sort_angles` says -/
+theorem tltLoad_asGiven (s : Bool) (l : List α) : tltLoad s (.asGiven l) = l := rfl
+
+/-- only a FILE is affected by `sort_angles` -/
+theorem tltLoad_fromFile (s : Bool) (l : List α) : tltLoad s (.fromFile l) = if s then sortAsc l else l := rfl
+
+/-- the documented mask filter from the argument as handed over = the loop on the list AS GIVEN -/
+theorem cleanMaskArg_eq (tr : α → Int) (ta : TomoArg α) (arg : MaskArg) (l : Motl α) :
+    cleanMaskArg tr ta arg l = cleanMask tr ta.values arg l := by
+  unfold cleanMaskArg cleanMaskArgWith cleanMask; rw [tltLoad_false]
+
+/-- **today's `clean_by_tomo_mask`, whatever the form of `tomo_list` (in memory or a file), is the model the theorems are about,
+run on the caller's list in the caller's order** -/
+theorem cleanMaskArgCode_eq (tr : α → Int) (ta : TomoArg α) (arg : MaskArg) (l : Motl α) :
+    cleanMaskArgCode tr ta arg l = cleanMask tr ta.values arg l := by
+  unfold cleanMaskArgCode cleanMaskArgWith cleanMask; rw [mask_cfg_documented, mask_tomo_list_as_given, tltLoad_false]
 
 /-! ## remove_out_of_bounds_particles -/
 
@@ -508,6 +552,7 @@ theorem shiftXYZ_other (o : V3 R) (p : Particle R) (f : Field) (hx : f ≠ .x) (
     (shiftXYZ o p).get f = p.get f := by
   cases f <;> first | rfl | exact absurd rfl hx | exact absurd rfl hy | exact absurd rfl hz
 
+/-- anchor (definitional restatement of `shiftXYZ`, not a clause of its own): the three moved fields -/
 theorem shiftXYZ_xyz (o : V3 R) (p : Particle R) :
     (shiftXYZ o p).x = p.x - o.x ∧ (shiftXYZ o p).y = p.y - o.y ∧ (shiftXYZ o p).z = p.z - o.z := ⟨rfl, rfl, rfl⟩
 
@@ -532,7 +577,7 @@ theorem trim_complete (s e : V3 R) (l : Motl R) (p : Particle R) (hp : p ∈ l) 
   rw [ht]
   exact List.mem_map_of_mem ((hk.mem_iff p).2 ⟨hp, hin⟩)
 
-/-- for a radius `r ≥ 0` the squared test of the model is the closed ball `d ≤ r` -/
+/-- for `d, r ≥ 0`: `d² ≤ r² ↔ d ≤ r` (arithmetic lemma; `inBall_iff_dist_le` connects it to the model) -/
 theorem closed_ball_iff (d r : R) (hd : 0 ≤ d) (hr : 0 ≤ r) : d * d ≤ r * r ↔ d ≤ r := by
   constructor
   · intro h
@@ -541,6 +586,82 @@ theorem closed_ball_iff (d r : R) (hd : 0 ≤ d) (hr : 0 ≤ r) : d * d ≤ r * 
     have : r * r < d * d := by nlinarith
     linarith
   · intro h; nlinarith
+
+/-- **"within the radius" is the closed Euclidean ball.** The model tests `dist2 c q ≤ r * r` (no square root); for a radius
+`r ≥ 0` and `d` THE Euclidean distance of `c` and `q` (the non-negative number whose square is `dist2 c q`) that is `d ≤ r`. -/
+theorem inBall_iff_dist_le (r d : R) (q c : V3 R) (hr : 0 ≤ r) (hd : 0 ≤ d) (hdd : d * d = dist2 c q) :
+    inBall r q c = true ↔ d ≤ r := by
+  unfold inBall
+  rw [decide_eq_true_eq, ← hdd]
+  exact closed_ball_iff d r hd hr
+
+/-- **What the model (and scipy, probed by the harness) does for a NEGATIVE radius:** only `r²` enters, so `-r` selects the same
+particles as `r`. The property speaks of radii `r ≥ 0`; a negative radius is outside its quantifier and is never generated. -/
+theorem inBall_neg (r : R) (q c : V3 R) : inBall (-r) q c = inBall r q c := by
+  unfold inBall; rw [neg_mul_neg]
+
+theorem nearPoint_neg (r : R) (pts : List (Pt R)) (p : Particle R) : nearPoint (-r) pts p = nearPoint r pts p := by
+  unfold nearPoint; simp only [inBall_neg]
+
+/-- radius `0`: exactly the particles sitting ON a reference point of their tomogram are "within the radius" -/
+theorem inBall_zero_iff (q c : V3 R) : inBall (0 : R) q c = true ↔ c = q := by
+  unfold inBall dist2
+  rw [decide_eq_true_eq, mul_zero]
+  constructor
+  · intro h
+    have hx : (c.x - q.x) * (c.x - q.x) ≥ 0 := mul_self_nonneg _
+    have hy : (c.y - q.y) * (c.y - q.y) ≥ 0 := mul_self_nonneg _
+    have hz : (c.z - q.z) * (c.z - q.z) ≥ 0 := mul_self_nonneg _
+    have h1 : (c.x - q.x) * (c.x - q.x) = 0 := by linarith
+    have h2 : (c.y - q.y) * (c.y - q.y) = 0 := by linarith
+    have h3 : (c.z - q.z) * (c.z - q.z) = 0 := by linarith
+    have e1 := sub_eq_zero.1 (mul_self_eq_zero.1 h1)
+    have e2 := sub_eq_zero.1 (mul_self_eq_zero.1 h2)
+    have e3 := sub_eq_zero.1 (mul_self_eq_zero.1 h3)
+    cases c; cases q; simp_all
+  · rintro rfl; simp
+
+/-! ### `np.sort` of a tomogram list read from a file (what `tlt_load` does when `sort_angles` holds) -/
+
+theorem insertAsc_perm (a : R) (l : List R) : (insertAsc a l).Perm (a :: l) := by
+  induction l with
+  | nil => exact List.Perm.refl _
+  | cons b l ih =>
+    unfold insertAsc
+    split
+    · exact List.Perm.refl _
+    · exact (List.Perm.cons b ih).trans (List.Perm.swap a b l)
+
+/-- sorting only permutes the list … -/
+theorem sortAsc_perm (l : List R) : (sortAsc l).Perm l := by
+  induction l with
+  | nil => exact List.Perm.refl _
+  | cons a l ih => exact (insertAsc_perm a (sortAsc l)).trans (List.Perm.cons a ih)
+
+theorem insertAsc_eq_cons (a : R) (l : List R) (h : ∀ b ∈ l, a ≤ b) : insertAsc a l = a :: l := by
+  cases l with
+  | nil => rfl
+  | cons b l => unfold insertAsc; rw [if_pos (h b (List.mem_cons_self ..))]
+
+/-- … and leaves an ascending list alone: on a file whose lines are already ascending the unrepaired code was right -/
+theorem sortAsc_eq_self (l : List R) (h : l.Pairwise (· ≤ ·)) : sortAsc l = l := by
+  induction l with
+  | nil => rfl
+  | cons a l ih =>
+    rw [List.pairwise_cons] at h
+    show insertAsc a (sortAsc l) = a :: l
+    rw [ih h.2, insertAsc_eq_cons a l h.1]
+
+/-- **Partial correctness of the code before the `sort_angles=False` repair**: for a list in memory always, for a file whenever
+its lines are ascending, it computed the same as the repaired code. The hypothesis is necessary:
+`cleanMask_sorted_file_counterexample`. -/
+theorem cleanMaskArgSorted_eq_of_ascending (tr : R → Int) (ta : TomoArg R) (arg : MaskArg) (l : Motl R)
+    (h : ∀ vs, ta = .fromFile vs → vs.Pairwise (· ≤ ·)) :
+    cleanMaskArgSorted tr ta arg l = cleanMaskArg tr ta arg l := by
+  unfold cleanMaskArgSorted cleanMaskArg cleanMaskArgWith
+  cases ta with
+  | asGiven vs => rfl
+  | fromFile vs => rw [tltLoad_fromFile, tltLoad_fromFile, if_pos rfl, sortAsc_eq_self vs (h vs rfl)]; rfl
 
 end ring
 
@@ -579,6 +700,18 @@ theorem cleanPoints_perm (r : α) (pts : List (Pt α)) (l : Motl α) :
   simp only [decide_eq_true_eq, hks]
   exact List.mem_map_of_mem (List.mem_filter.1 hx).1
 
+/-- **The driver's `spec` for the reference-point clause is the statement itself**: the input without the particles within the
+radius of a point of their own tomogram — order and multiplicities of the input, every survivor an unaltered row. -/
+theorem cleanPointsStmt_spec (r : α) (pts : List (Pt α)) (l : Motl α) :
+    KeepsExactly (fun p => ¬ NearPoint r pts p) l (cleanPointsStmt r pts l) :=
+  ⟨_, rfl, fun p _ => by show (!nearPoint r pts p) = true ↔ ¬ NearPoint r pts p; rw [← nearPoint_iff]; simp⟩
+
+/-- the code (per-tomogram loop, groups concatenated) returns a permutation of the statement's list -/
+theorem cleanPoints_perm_stmt (r : α) (pts : List (Pt α)) (l : Motl α) :
+    (cleanPoints r pts l).Perm (cleanPointsStmt r pts l) := by
+  obtain ⟨kept, hk, hp⟩ := cleanPoints_perm r pts l
+  rw [(cleanPointsStmt_spec r pts l).unique hk]; exact hp
+
 /-- membership form -/
 theorem cleanPoints_mem_iff (r : α) (pts : List (Pt α)) (l : Motl α) (p : Particle α) :
     p ∈ cleanPoints r pts l ↔ p ∈ l ∧ ¬ NearPoint r pts p := by
@@ -607,6 +740,16 @@ theorem cleanPoints_tomogram_order (r : α) (pts : List (Pt α)) (l : Motl α) (
     apply hn
     rw [mem_uniques, ← hpt]
     exact List.mem_map_of_mem (List.mem_filter.1 hp).1
+
+/-- code and statement agree tomogram by tomogram, order included — this (not the order of the groups) is what the harness
+compares for the reference-point filter -/
+theorem cleanPoints_tomogram_order_stmt (r : α) (pts : List (Pt α)) (l : Motl α) (t : α) :
+    (cleanPoints r pts l).filter (fun p => decide (p.tomo_id = t))
+      = (cleanPointsStmt r pts l).filter (fun p => decide (p.tomo_id = t)) := by
+  rw [cleanPoints_tomogram_order]
+  unfold cleanPointsStmt
+  rw [List.filter_filter, List.filter_filter]
+  apply List.filter_congr; intro x _; exact Bool.and_comm _ _
 
 /-- a list that lives in one tomogram is not even reordered -/
 theorem cleanPoints_single_tomogram (r : α) (pts : List (Pt α)) (l : Motl α) (t : α)
@@ -898,6 +1041,34 @@ theorem cleanMask_rejects_iff (tr : α → Int) (tomos : List α) (arg : MaskArg
     · simp [hl]
     · cases e; simp [hl]
 
+/-! ### the pairing: mask `i` belongs to entry `i` of the tomogram list AS GIVEN, for every form of `tomo_list` -/
+
+/-- a list of masks is paired position by position: `(t, m)` is pair `i` iff `t` is entry `i` of the tomogram list and `m` is
+mask `i` -/
+theorem pairMasks_perTomo_getElem (tomos : List α) (ms : List Mask) (tm : List (α × Mask))
+    (h : pairMasks tomos (.perTomo ms) = .ok tm) (i : Nat) (t : α) (m : Mask) :
+    tm[i]? = some (t, m) ↔ tomos[i]? = some t ∧ ms[i]? = some m := by
+  rcases pairMasks_ok tomos _ tm h with ⟨m', h1, _⟩ | ⟨ms', h1, _, h3⟩
+  · cases h1
+  · cases h1; subst h3
+    exact List.getElem?_zip_eq_some
+
+/-- **Pairing theorem for the whole call.** Whatever the form of `tomo_list` — list, tuple, array, single number or a FILE with
+one number per line, sorted or not — today's code cleans with mask `i` exactly the tomogram that is entry `i` of the list as the
+caller wrote it: its result is the documented loop on `ta.values`, hence (ids not repeated inside a tomogram) exactly the
+particles not on a zero voxel of the mask listed AT THE SAME POSITION as their tomogram survive. -/
+theorem cleanMaskArgCode_spec (tr : α → Int) (ta : TomoArg α) (arg : MaskArg) (l out : Motl α)
+    (hid : UniqueIdsWithinTomograms l) (h : cleanMaskArgCode tr ta arg l = .ok out) :
+    ∃ tm, pairMasks ta.values arg = .ok tm ∧ KeepsExactly (fun p => ¬ OnZeroVoxel tr tm p) l out := by
+  rw [cleanMaskArgCode_eq] at h
+  exact cleanMask_spec tr ta.values arg l out hid h
+
+/-- on a well-formed list the code, from ANY form of `tomo_list`, computes the statement on the list as given -/
+theorem cleanMaskArgCode_eq_stmt (tr : α → Int) (ta : TomoArg α) (arg : MaskArg) (l : Motl α)
+    (hwf : ∀ tm, pairMasks ta.values arg = .ok tm → MaskWellFormed tr tm l) :
+    cleanMaskArgCode tr ta arg l = cleanMaskStmt tr ta.values arg l := by
+  rw [cleanMaskArgCode_eq]; exact cleanMask_eq_stmt tr ta.values arg l hwf
+
 end generic2
 
 /-! ### the truncation the driver uses (`astype(int)`): toward zero -/
@@ -1000,6 +1171,20 @@ theorem cleanMask_needs_unique_ids_within_tomogram :
   apply hwf (wP 1 1 2) (by simp) (wP 1 1 1) (by simp) rfl rfl
   rw [← onZeroVoxel_iff]; decide
 
+def wZeros : Mask := { sx := 4, sy := 4, sz := 4, val := fun _ _ _ => false }
+
+/-- **Witness of the defect repaired by `tlt_load(tomo_list, sort_angles=False)`.** Tomograms `[7, 2]` with masks
+`[all ones, all zeros]`, one particle in each at voxel (1,1,1). Handed over as a LIST the code keeps the particle of tomogram 7
+(as the statement demands); the same two numbers as the lines of a FILE were sorted to `[2, 7]` by the unrepaired code and so
+paired with the wrong masks: it removed the particle on the non-zero voxel and kept the one on the zero voxel. The repaired
+model gives the statement for both forms. -/
+theorem cleanMask_sorted_file_counterexample :
+    (cleanMaskArgSorted id (.asGiven [7, 2]) (.perTomo [wOnes, wZeros]) [wP 7 1 1, wP 2 2 1]).toOption = some [wP 7 1 1] ∧
+    (cleanMaskArgSorted id (.fromFile [7, 2]) (.perTomo [wOnes, wZeros]) [wP 7 1 1, wP 2 2 1]).toOption = some [wP 2 2 1] ∧
+    (cleanMaskArg id (.fromFile [7, 2]) (.perTomo [wOnes, wZeros]) [wP 7 1 1, wP 2 2 1]).toOption = some [wP 7 1 1] ∧
+    (cleanMaskStmt id (TomoArg.fromFile [7, 2]).values (.perTomo [wOnes, wZeros]) [wP 7 1 1, wP 2 2 1]).toOption = some [wP 7 1 1] := by
+  refine ⟨by decide, by decide, by decide, by decide⟩
+
 /-- **Regression witness of defect D11 (repaired by a0240b0).** One particle beyond the mask volume in
 front of a particle on the zero voxel: the old code removes the WRONG particle (index into the
 filtered array used as a row label), the repaired code removes the right one. -/
@@ -1025,6 +1210,11 @@ example : trim (⟨3, 1, 1⟩ : V3 Int) ⟨7, 10, 10⟩ [wP 1 1 2, wP 1 2 3, wP 
 /-- `cleanPoints_perm`: two tomograms, a tie on the ball surface is removed, the foreign point removes nothing -/
 example : cleanPoints (5 : Int) [⟨1, ⟨4, 5, 1⟩⟩, ⟨7, ⟨0, 1, 1⟩⟩] [wP 2 1 0, wP 1 2 1, wP 2 3 5, wP 1 4 9]
     = [wP 2 1 0, wP 2 3 5, wP 1 4 9] := by decide
+/-- `cleanMaskArgSorted_eq_of_ascending`: an ascending file meets the hypothesis, `[7, 2]` does not -/
+example : ([2, 7] : List Int).Pairwise (· ≤ ·) ∧ ¬ ([7, 2] : List Int).Pairwise (· ≤ ·) := by decide
+/-- `inBall_iff_dist_le`: the 3-4-5 triple, `d = 5` is the Euclidean distance; radius 5 reaches it, radius 4 does not -/
+example : (5 : Int) * 5 = dist2 (⟨3, 4, 0⟩ : V3 Int) ⟨0, 0, 0⟩ ∧ inBall (5 : Int) ⟨0, 0, 0⟩ ⟨3, 4, 0⟩ = true ∧
+    inBall (4 : Int) ⟨0, 0, 0⟩ ⟨3, 4, 0⟩ = false := by decide
 /-- `cleanMask_spec`: the SAME subtomo ids in two tomograms (each id once per tomogram): only the row of the masked
 tomogram on the zero voxel goes -/
 example : (cleanMask id [1] (.single wMask) [wP 1 1 1, wP 2 1 1, wP 1 2 2, wP 2 2 2]).toOption
